@@ -35,6 +35,13 @@ def run(report, index, tier):
         'per call, nothing reachable from it writes module-level, class-'
         'level or default-argument state, and every instance attribute the '
         'stateful Lexer/Parser methods read is initialised per instance.')
+    rules(report, index)
+
+
+def rules(report, index):
+    """also a premise of the round-trip properties C01 / C02: printing and
+    re-parsing are two parses in one process, the second must not depend
+    on the first"""
     mods = [index.need(d) for d in PARSE_PATH]
     pm = index.need('calmjs.parse.parsers.es5')
     lm = index.need('calmjs.parse.lexers.es5')
